@@ -371,7 +371,7 @@ func search(prop, tier string, base uint64, cfg tierCfg, workers int, tmp string
 		}
 		res, out, err := spawn(bin, spec, 1, nil, sets, nil)
 		if err == nil && res.Hang != nil {
-			agg.Violations = append(agg.Violations, &Violation{Prop: prop, Kind: "hang", Msg: "a call into the library did not return within 20 s (reproduced alone in a fresh process)", World: hw})
+			agg.Violations = append(agg.Violations, &Violation{Prop: prop, Kind: "hang", Msg: "a call into the library did not return (no progress for 20 s while burning CPU, or for 120 s blocked; reproduced alone in a fresh process)", World: hw})
 			agg.noShrink = true
 			continue
 		}
@@ -496,7 +496,7 @@ func replayMain(path string) int {
 		sets := [4]map[uint64]struct{}{{}, {}, {}, {}}
 		res, out, err := spawn(selfBinary(os.Getenv("VERIF_SELF")), spec, 1, nil, sets, nil)
 		if err == nil && res.Hang != nil {
-			fmt.Println("replay: the call did not return within 20 s")
+			fmt.Println("replay: the call did not return (20 s busy or 120 s blocked)")
 			fmt.Printf("VIOLATION property=%s replay=%s\n", rf.Property, path)
 			return 1
 		}
